@@ -19,6 +19,7 @@ import (
 	"io"
 	"math/big"
 	"os"
+	"runtime/pprof"
 	"runtime"
 	"runtime/debug"
 	"sort"
@@ -217,6 +218,12 @@ func (s *c12Shadow) walk(t *ref.C11Type) bool {
 			s.danger = true
 			return false
 		}
+		if t.Kind == ref.C11Vec && t.Elem.Kind == ref.C11U8 && n > uint64(len(s.rd.data)-s.rd.pos)+c12DangerLen {
+			// vec<u8> is a Go []byte: decoded by decodeBytes, which allocates the declared length (the listed
+			// finding; gigabytes per worker when a substitution lands in a 4-byte compact)
+			s.danger = true
+			return false
+		}
 		for i := uint64(0); i < n; i++ {
 			if t.Kind == ref.C11Map && !s.walk(t.Key) {
 				return false
@@ -385,6 +392,28 @@ func c12Violate(r *verifmc.Report, cnt *c11Counts, sig string, mk func() (string
 	r.Violate(sig, "", nil) // counted only: at least three of this signature were already recorded
 }
 
+// c12BigSem serialises (two at a time) the decodes of inputs in which SOME offset reads as a compact
+// integer above 16 MiB.  c12Dangerous predicts most declared-length allocations of the listed decodeBytes
+// finding, but not all of them (observed: 400 MiB buffers under decodeMap), and sixteen workers holding
+// such buffers at once took the machine to 60 GB.  This is scheduling only: every input is still executed.
+var c12BigSem = make(chan struct{}, 2)
+
+func c12MayDeclareBig(in []byte) bool {
+	for i := 0; i+3 < len(in); i++ {
+		switch in[i] & 3 {
+		case 2:
+			if (uint32(in[i])|uint32(in[i+1])<<8|uint32(in[i+2])<<16|uint32(in[i+3])<<24)>>2 > 16<<20 {
+				return true
+			}
+		case 3:
+			if i+4 < len(in) && (in[i+4] != 0 || in[i+3] != 0) {
+				return true
+			}
+		}
+	}
+	return false
+}
+
 // c12Check runs the real decoder on one input through one reader and applies the oracle.
 // It returns true when the decoder accepted the input.
 func c12Check(r *verifmc.Report, cnt *c11Counts, t *ref.C11Type, input []byte, mode, k int, class string) bool {
@@ -394,6 +423,10 @@ func c12Check(r *verifmc.Report, cnt *c11Counts, t *ref.C11Type, input []byte, m
 		return false
 	}
 	cnt.add["evaluations"]++
+	if c12MayDeclareBig(input) {
+		c12BigSem <- struct{}{}
+		defer func() { <-c12BigSem }()
+	}
 	dest := c11Dest(t)
 	rd := &c12Reader{data: input, mode: mode, k: k}
 	var err error
@@ -737,6 +770,16 @@ func c12LenOwner(t *ref.C11Type) *ref.C11Type {
 }
 
 func TestVerif_C12(t *testing.T) {
+	if f := os.Getenv("C12_HEAPDUMP"); f != "" { // debugging aid: heap profile after 5 minutes
+		go func() {
+			time.Sleep(5 * time.Minute)
+			w, err := os.Create(f)
+			if err == nil {
+				_ = pprof.WriteHeapProfile(w)
+				w.Close()
+			}
+		}()
+	}
 	r := verifmc.NewReport("C12", "decode-malformed", "exploration")
 	defer r.Write()
 	depth := verifmc.Pick(1, 2)
